@@ -217,6 +217,8 @@ func c11CLICase(c *Ctx) *Result {
 				{"wrong-password", creds[k].User, "bad", 1, false},
 				{"empty", "", "", 1, false},
 				{"empty-user", "", creds[k].Password, 1, false},
+				{"boundary-shifted", creds[k].User + creds[k].Password[:1], creds[k].Password[1:], 1, false},
+				{"all-in-user", creds[k].User + creds[k].Password, "", 1, false},
 				{"empty-password", creds[k].User, "", 1, false},
 				{"255-byte", string(make([]byte, 255)), string(make([]byte, 255)), 1, false},
 				{"wrong-subneg-version", creds[k].User, creds[k].Password, byte(pick(r, 0, 2, 5)), false},
